@@ -423,54 +423,73 @@ def validate_traces(run, module, cfg, traces_path, chunks=None, timeout=1800):
     """Validates all sessions of traces_path with the deterministic trace spec
     (TraceSkip resumes after a rejected session).  Returns (n_sessions, n_events,
     [(session id, events, index of the unexplained event | None)])."""
+    # the events are parsed one session at a time (a thorough run records millions of them): what is kept is the raw
+    # lines and, per session, its id and line range; only rejected sessions are handed back as parsed events
     lines = [l for l in open(traces_path).read().split("\n") if l.strip()]
-    sessions = split_sessions(lines)
+    sessions = []          # (id, first line, one past the last line)
+    for i, ln in enumerate(lines):
+        if '"session"' in ln:
+            e = json.loads(ln)
+            if e.get("ev") == "session":
+                if sessions:
+                    sessions[-1] = (sessions[-1][0], sessions[-1][1], i)
+                sessions.append((e["id"], i, len(lines)))
+                continue
+        if not sessions:
+            raise Infra("trace does not start with a session line")
     if not sessions:
         raise Infra("no traces recorded")
+
+    def parsed(k):
+        sid, a, b = sessions[k]
+        return [json.loads(l) for l in lines[a:b]]
     chunks = chunks or max(1, min(NCPU // 2, len(lines) // 4000 + 1))
     per = (len(sessions) + chunks - 1) // chunks
     jobs = []
     for c in range(chunks):
-        part = sessions[c * per:(c + 1) * per]
+        part = list(range(c * per, min((c + 1) * per, len(sessions))))
         if not part:
             continue
         d = run.spec_dir("val-%s-%d" % (module, c))
-        # a closing sentinel session line: rejected iff the last session never returned
-        part = part + [(-1, [{"ev": "session", "id": -1}])]
+        n = 0
         with open(os.path.join(d, "trace.ndjson"), "w") as f:
-            for sid, evs in part:
-                for e in tlc_view(evs):
+            for k in part:
+                for e in tlc_view(parsed(k)):
                     f.write(json.dumps(e, sort_keys=True) + "\n")
-        jobs.append((part, d))
+                    n += 1
+            # a closing sentinel session line: rejected iff the last session never returned
+            f.write(json.dumps({"ev": "session", "id": -1}, sort_keys=True) + "\n")
+            n += 1
+        jobs.append((part, d, n))
     import concurrent.futures as cf
     rejected = []
     with cf.ThreadPoolExecutor(max_workers=len(jobs)) as ex:
-        futs = [ex.submit(run.tlc, module, cfg, 1, d, timeout) for part, d in jobs]
-        for (part, d), fu in zip(jobs, futs):
+        futs = [ex.submit(run.tlc, module, cfg, 1, d, timeout) for part, d, n in jobs]
+        for (part, d, n), fu in zip(jobs, futs):
             r = fu.result()
-            n = sum(len(evs) for _, evs in part)
             if r.hwm is None or r.rej is None or not r.ok:
                 raise Infra("trace validation did not complete (%s):\n%s" % (module, r.tail(50)))
             if r.hwm[1] != n:
                 raise Infra("trace length mismatch: TLC read %d lines, wrote %d" % (r.hwm[1], n))
             if r.hwm[0] != n + 1:
                 raise Infra("trace validation stopped at line %d of %d without a rejection record:\n%s" % (r.hwm[0], n, r.tail(50)))
-            # map rejected line numbers to sessions
+            # map rejected line numbers to sessions (the sentinel is the last "session" of the chunk)
             starts = []
             pos = 1
-            for sid, evs in part:
+            for k in part:
                 starts.append(pos)
-                pos += len(evs)
+                pos += sessions[k][2] - sessions[k][1]
+            starts.append(pos)
             for ln in r.rej:
-                si = max(i for i, s in enumerate(starts) if s <= ln)
+                si = max(i for i, st in enumerate(starts) if st <= ln)
                 if ln == starts[si]:           # a session line: the previous session never returned
                     if si == 0:
                         raise Infra("first session line rejected")
-                    sid, evs = part[si - 1]
-                    rejected.append((sid, evs, None))
+                    k = part[si - 1]
+                    rejected.append((sessions[k][0], parsed(k), None))
                 else:
-                    sid, evs = part[si]
-                    rejected.append((sid, evs, ln - starts[si]))
+                    k = part[si]
+                    rejected.append((sessions[k][0], parsed(k), ln - starts[si]))
     nev = len(lines)
     run.cov["traces_validated_against_impl"] = run.cov.get("traces_validated_against_impl", 0) + len(sessions)
     run.cov["trace_events_validated"] = run.cov.get("trace_events_validated", 0) + nev
